@@ -1,0 +1,117 @@
+//! Verification hooks (only compiled with `--cfg tracing_verif`).
+//!
+//! Nothing in here copies crate logic: every function forwards to the real
+//! private item it names. The `thread_local!` shadow replaces OS thread-local
+//! storage by one slot per *simulated* thread so that a single-threaded model
+//! checker can drive multi-thread histories at operation granularity.
+#![allow(missing_docs, missing_debug_implementations, dead_code, unreachable_pub)]
+
+use core::sync::atomic::{AtomicUsize, Ordering};
+
+/// Number of simulated threads.
+pub const THREADS: usize = 3;
+
+pub static TID: AtomicUsize = AtomicUsize::new(0);
+
+/// Selects the simulated thread whose thread-local slots are used from now on.
+pub fn set_thread(t: usize) {
+    assert!(t < THREADS);
+    TID.store(t, Ordering::Relaxed);
+}
+
+pub fn thread() -> usize {
+    TID.load(Ordering::Relaxed)
+}
+
+/// Sequential stand-in for `std::thread::LocalKey`.
+pub struct SeqLocal<T: 'static> {
+    pub slots: [T; THREADS],
+}
+
+// Safety: verification builds are single-threaded; slots model per-thread data.
+unsafe impl<T> Sync for SeqLocal<T> {}
+
+impl<T: 'static> SeqLocal<T> {
+    #[inline]
+    pub fn try_with<R>(&'static self, f: impl FnOnce(&T) -> R) -> Result<R, ()> {
+        Ok(f(&self.slots[TID.load(Ordering::Relaxed)]))
+    }
+    #[inline]
+    pub fn with<R>(&'static self, f: impl FnOnce(&T) -> R) -> R {
+        f(&self.slots[TID.load(Ordering::Relaxed)])
+    }
+}
+
+macro_rules! thread_local {
+    ($(#[$a:meta])* $vis:vis static $name:ident : $t:ty = const { $init:expr } ; ) => {
+        $vis static $name: $crate::__verif::SeqLocal<$t> = $crate::__verif::SeqLocal {
+            slots: [const { $init }, const { $init }, const { $init }],
+        };
+    };
+}
+
+/// `LevelFilter::set_max`
+pub fn set_max(l: crate::LevelFilter) {
+    crate::LevelFilter::set_max(l)
+}
+
+/// Raw value of the `MAX_LEVEL` atomic.
+pub fn max_level_raw() -> usize {
+    crate::metadata::verif_max_level_raw()
+}
+
+/// `Interest::and`
+pub fn interest_and(a: crate::collect::Interest, b: crate::collect::Interest) -> crate::collect::Interest {
+    a.and(b)
+}
+
+#[cfg(feature = "std")]
+mod with_std {
+    use crate::{callsite::Callsite, Collect, Dispatch};
+    use std::{sync::Arc, vec::Vec};
+
+    /// A `Dispatch` for `c` that has *not* been passed to `register_dispatch`.
+    pub fn dispatch_unregistered(c: &'static (dyn Collect + Send + Sync)) -> Dispatch {
+        Dispatch::verif_unregistered(c)
+    }
+
+    /// Like [`dispatch_unregistered`], for a reference-counted collector.
+    pub fn dispatch_unregistered_arc(c: Arc<dyn Collect + Send + Sync>) -> Dispatch {
+        Dispatch::verif_unregistered_arc(c)
+    }
+
+    /// A harness-owned list of dispatcher registrations (the type of the
+    /// registry's private `dispatchers` list).
+    pub struct VRegistrars(pub(crate) Vec<crate::dispatch::Registrar>);
+
+    impl VRegistrars {
+        pub fn new() -> Self {
+            VRegistrars(Vec::new())
+        }
+        pub fn push(&mut self, d: &Dispatch) {
+            self.0.push(d.registrar())
+        }
+        pub fn len(&self) -> usize {
+            self.0.len()
+        }
+    }
+
+    /// The real `callsite::inner::rebuild_callsite_interest` on a harness-owned list.
+    pub fn rebuild_callsite_interest(ds: &VRegistrars, cs: &'static dyn Callsite) {
+        crate::callsite::verif_rebuild_callsite_interest(&ds.0, cs)
+    }
+
+    /// The real `callsite::inner::rebuild_interest` over the real registered
+    /// callsite list and a harness-owned dispatcher list.
+    pub fn rebuild_interest(ds: &mut VRegistrars) {
+        crate::callsite::verif_rebuild_interest(&mut ds.0)
+    }
+
+    /// Visits every callsite in the real registry.
+    pub fn for_each_registered_callsite(f: impl FnMut(&'static dyn Callsite)) {
+        crate::callsite::verif_for_each(f)
+    }
+}
+
+#[cfg(feature = "std")]
+pub use self::with_std::*;
